@@ -220,6 +220,17 @@ fn scenario_scripts(kind: usize, g: &mut Gen, snap: &Value, conns: &[String]) ->
                 }
             }
         }
+        // registered users rename to ONE free nickname at the same moment while an operator login (password hashing
+        // under the state write lock) makes them queue up; afterwards each says who it is and is looked up
+        15 => {
+            if authed.len() >= 3 {
+                let n = format!("prize{}", g.rng.gen_range(0..1000));
+                m.insert(authed[0].clone(), vec![cmd("OPER", vec![vec![s("god")], vec![s("wrongpass")]]), cmd("WHOIS", vec![vec![n.clone()]]), cmd("NAMES", vec![vec![s("#one")]])]);
+                for c in authed.iter().skip(1) {
+                    m.insert(c.clone(), vec![cmd("NICK", vec![vec![n.clone()]]), cmd("PRIVMSG", vec![vec![s("#one")], vec![format!("i am {}", c)]]), cmd("MODE", vec![vec![n.clone()]])]);
+                }
+            }
+        }
         // random scripts
         _ => {
             for c in conns {
@@ -312,7 +323,7 @@ async fn run_rounds(id: &str, cfg: &Value, seed: u64, rounds: usize, nconn: usiz
             }
         }
         snap = sess.snapshot().await;
-        let kind = if kinds.is_empty() { (seed as usize + r) % 15 } else { kinds[(seed as usize + r) % kinds.len()] };
+        let kind = if kinds.is_empty() { (seed as usize + r) % 16 } else { kinds[(seed as usize + r) % kinds.len()] };
         if kind == 8 || kind == 9 {
             // make room for fresh registrations: three connections start over
             for c in conns.iter().skip(2) {
